@@ -25,7 +25,8 @@ LEVEL_NOTE = ('ids outside the alphabet, PELs without primary SRC under --src/--
 RULE = ('directory = one PEL per id in a 12-value alphabet (PLID != EID) + shared-PLID pair + hidden + non-serviceable + '
         'no-SRC PEL; queries: --plid ids x 6 spellings + all one-digit near misses + malformed lengths; --bmc-id 9 values; '
         '-i every entry id x 3 spellings + absent; --src every substring (1..8) of 5 codes + 3 absent; --src-exclude every '
-        'subset of the codes; -x variants; 3-file directories in all 6 listing orders. Non-trivial: expected result set '
+        'subset of the codes; -x variants; 3-file directories in all 6 listing orders; -i / --bmc-id with files that carry the id '
+        '(in their name / in a Private Header) but hold no decodable PEL, sorting before and after the real PEL, both listing orders. Non-trivial: expected result set '
         'non-empty; distinct by query.')
 ASSUMPTIONS = ['file names follow the BMC convention <timestamp>_<entry id as 8 upper-case hex digits>']
 
